@@ -403,7 +403,8 @@ class NETReader:
         """
         # Defining an expression for valid word
         word_expr = Word(alphanums + "_" + "-")("nodename")
-        node_keyword = Suppress(Regex(r"(?<![\w-])node\s"))
+        # A declaration looks like "node NAME {"; the word alone can also be a state or parent name.
+        node_keyword = Suppress(Regex(r"(?<![\w-])node\s+(?=[\w-]+\s*\{)"))
         name_expr = node_keyword + word_expr + Optional(Suppress("{"))
 
         word_expr2 = Word(initChars=printables, excludeChars=["(", ")", ",", " "])
